@@ -96,6 +96,7 @@ def join_sites(b):
 
 def run(ctx, rep):
     run_termination_rules(ctx, rep)
+    signal_handler_rules(ctx, rep)
     run_output_rules(ctx, rep)
 
 
@@ -287,6 +288,39 @@ def run_termination_rules(ctx, rep):
         ok = len(pushes) == 1 and "spawn" in show_origin(b.origin(pushes[0]["args"][1]))
         rep.check(ok, "R17.3", "R17.3|dispatcher|handle_stored", "each spawned validator's handle is stored for the final join", dbi)
 
+
+
+def signal_handler_rules(ctx, rep):
+    """R17.5: the stop-signal handler raises the stop flag on every path, and its "second signal → exit now" decision
+    rests on the handler's own count — never on the shared stop flag, which the controller also raises (error cap,
+    fatal error): a single signal during an internal wind-down must still get the orderly stop"""
+    f = ctx.facts()
+    cg = ctx.cg()
+    ih = "fastpasta::util::lib::init_ctrlc_handler"
+    clos = sorted(q for q in f.fns if q.startswith(ih + "::{closure") and f.fns[q].get("mir"))
+    if ih not in f.fns or not clos:
+        rep.missing("R17.5", ih + " (handler closure)")
+        return
+    for q in clos:
+        b = cg.body(q)
+        stores = [bb for bb, t, cal, c in b.calls() if cal and cal.startswith("core::sync::atomic::Atomic") and cal.split("::")[-1] in ("store", "swap", "fetch_or")
+                  and t["args"][1:2] and (t["args"][1].get("c") or {}).get("int") == 1]
+        rets = b.return_blocks()
+        exits = [bb for bb, t, cal, c in b.calls() if cal == "std::process::exit"]
+        ok_store = bool(stores) and all(b.all_paths_pass(0, stores, to=[x]) for x in rets + exits)
+        rep.check(ok_store, "R17.5", "R17.5|handler|raises_flag", "the signal handler raises the stop flag on every path", q,
+                  "the signal handler does not store `true` into the stop flag on every path")
+        deciding = []
+        for e in exits:
+            for x in b.live_blocks():
+                tt = b.blocks[x]["t"]
+                if tt["k"] == "switch" and e in b.reachable_from(x) and not all(e in b.reachable_from(s_) or s_ == e for s_ in b.succ[x]):
+                    src = [c_[1] for c_ in origin_calls(b.origin(tt["d"])) if c_[1]] + sorted(b.source_calls(tt["d"]))
+                    deciding.append((x, [c_ for c_ in src if c_.startswith("core::sync::atomic::")]))
+        bad = [d for d in deciding if d[1]]
+        rep.check(bool(exits) and bool(deciding) and not bad, "R17.5", "R17.5|handler|second_signal_own_count",
+                  "the immediate exit is decided by the handler's own signal count", q,
+                  "the handler decides `process::exit` from the shared stop flag (%s): a first signal after an internal stop (error cap, fatal error) kills the run without report, flush or statistics" % sorted({c_ for d in bad for c_ in d[1]}))
 
 
 def run_output_rules(ctx, rep):
